@@ -191,6 +191,9 @@ def install_seams(run_seed):
     uuid.uuid4 = _DetUUID()
     np.random.seed(run_seed % (2**32))
     warnings.simplefilter("ignore")
+    import logging
+
+    logging.disable(logging.INFO)
 
 
 def _filters_digest():
